@@ -223,10 +223,7 @@ def _compute_checksum(decompressed_fields: List[Tuple[str, Buffer]], rule_field_
     Checksum is the 16-bit one's complement of the one's complement sum of a
     IPv4 header.
 
-    If the computed  checksum  is zero,  it is transmitted  as all ones (the
-    equivalent  in one's complement  arithmetic).   An all zero  transmitted
-    checksum  value means that the transmitter  generated  no checksum  (for
-    debugging or for higher level protocols that don't care).
+    Unlike UDP, a computed checksum of zero is transmitted as zero (RFC 791).
     """
 
     # retrieve IPv4 header fields
@@ -243,8 +240,6 @@ def _compute_checksum(decompressed_fields: List[Tuple[str, Buffer]], rule_field_
     
     checksum_value = ~header_checksum & 0xffff
 
-    # if checksum is 0x0000 return 0xffff
-    checksum_value = 0xffff if checksum_value == 0x0000 else checksum_value    
     checksum_buffer: Buffer = Buffer(content=checksum_value.to_bytes(2, 'big'), length=16)
     return checksum_buffer
 
